@@ -32,6 +32,41 @@ theorem no_echo (cfg : Nat → Cfg) (evs : List Ev) (x : Sent) (hx : x ∈ (run 
       (x.msg.id, x.prev) ∈ ((run (init cfg) evs).nodes x.src).firstHop :=
   (run_sentOk (init cfg) evs (init_sentOk cfg)).1 x hx
 
+/-- No echo over ANY link. `execPublish` at (peer, link) granularity (the router tables of
+`Pubsub.Router`: several tuples may carry the same peer id — parallel links, a second session of a
+re-dialled link): no target tuple carries the peer id of the previous hop or the id named as the
+publisher, WHATEVER its link id; every target is a registered session that announced the channel. -/
+theorem no_echo_any_link (r : Router) (ch fromText prev : Bytes) (t : Tpl)
+    (h : t ∈ execPublishTargets r ch fromText prev) :
+    t.1 ≠ prev ∧ Codec.idB58Encode t.1 ≠ fromText ∧ t ∈ r.peers ∧
+      ∃ l, lookupCh r.peerChannels ch = some l ∧ t ∈ l := by
+  unfold execPublishTargets at h
+  rw [List.mem_filter] at h
+  obtain ⟨hm, hc⟩ := h
+  simp only [Bool.and_eq_true, Bool.not_eq_true', decide_eq_false_iff_not, List.contains_eq_mem,
+    decide_eq_true_eq] at hc
+  obtain ⟨⟨h1, h2⟩, h3⟩ := hc
+  refine ⟨h2, h1, h3, ?_⟩
+  cases hl : lookupCh r.peerChannels ch with
+  | none => rw [hl] at hm; simp at hm
+  | some l => rw [hl] at hm; exact ⟨l, rfl, by simpa using hm⟩
+
+/-- …and conversely every announced, registered tuple of any OTHER peer gets the packet, once per
+tuple (so a neighbour joined by two links is written to on both; its seen-set drops the second copy). -/
+theorem every_other_announced_link_gets_it (r : Router) (ch fromText prev : Bytes) (t : Tpl) (l : List Tpl)
+    (hl : lookupCh r.peerChannels ch = some l) (ht : t ∈ l) (hp : t ∈ r.peers)
+    (h1 : t.1 ≠ prev) (h2 : Codec.idB58Encode t.1 ≠ fromText) :
+    t ∈ execPublishTargets r ch fromText prev := by
+  unfold execPublishTargets
+  rw [List.mem_filter, hl]
+  refine ⟨by simpa using ht, ?_⟩
+  simp [h1, h2, hp]
+
+/-- Non-vacuity: peer [9] is joined by links 1 and 2, the message came from [9] over link 1: neither
+tuple of [9] is a target, the other neighbour [8] is. -/
+example : execPublishTargets { peerChannels := [([1], [([9], 1), ([9], 2), ([8], 3)])], peers := [([9], 1), ([9], 2), ([8], 3)] }
+    [1] [] [9] = [([8], 3)] := by decide
+
 /-- Packets are only written to sessions that announced a subscription to the channel. -/
 theorem sent_only_to_announced (s : State) (n : Nat) (x : Sent) (hx : x ∈ (step s (.fwd n)).sent) :
     x ∈ s.sent ∨ (x.dst ∈ (s.nodes n).peers ∧ (x.msg.ch, x.dst) ∈ (s.nodes n).know) := by
